@@ -1,6 +1,234 @@
 package main
 
-// Native replay: filled in replay_native.go (placeholder until built).
-func replayWitnesses(repo, hdir string, r *HarnessRun, labels []string) (int, []string) { return 0, nil }
-func replayViolation(repo, hdir string, v *Violation, path string) string             { return "unreplayed" }
-func replayOnly(repo, hdir, file string) int                                           { return 2 }
+// Native replay: the harness is compiled with the native intrinsics into a
+// `go test` binary of /repo's current tree (overlay, nothing written into
+// /repo) and run once per solver model.
+
+import (
+	"encoding/json"
+	"fmt"
+	"os"
+	"os/exec"
+	"path/filepath"
+	"sort"
+	"strings"
+	"sync"
+)
+
+type replayResult struct {
+	Failed         []string `json:"failed"`
+	Reached        []string `json:"reached"`
+	AssumeViolated []string `json:"assume_violated"`
+	Panic          string   `json:"panic"`
+	MissingInputs  []string `json:"missing_inputs"`
+	Notes          []string `json:"notes"`
+	runErr         string
+}
+
+var (
+	replayOnce sync.Once
+	replayBin  string
+	replayErr  error
+	replayTmp  string
+)
+
+func cleanupReplay() {
+	if replayTmp != "" {
+		os.RemoveAll(replayTmp)
+	}
+}
+
+func buildReplayBinary(repo, hdir string, harnessNames []string) (string, error) {
+	replayOnce.Do(func() {
+		tmp, err := os.MkdirTemp("", "gosmt-replay")
+		if err != nil {
+			replayErr = err
+			return
+		}
+		replayTmp = tmp
+		overlay := map[string]string{}
+		files, _ := filepath.Glob(filepath.Join(hdir, "*.go"))
+		for _, f := range files {
+			base := filepath.Base(f)
+			if strings.HasSuffix(base, "_sym.go") {
+				continue
+			}
+			overlay[filepath.Join(repo, "zz_verif_"+base)] = f
+		}
+		nfiles, _ := filepath.Glob(filepath.Join(hdir, "native", "*.go"))
+		for _, f := range nfiles {
+			base := filepath.Base(f)
+			overlay[filepath.Join(repo, "zz_verif_"+base)] = f
+		}
+		// registry of harness entry points
+		var sb strings.Builder
+		sb.WriteString("//go:build verif && verifnative\n\npackage rosmar\n\nvar verifHarnesses = map[string]func(){\n")
+		sort.Strings(harnessNames)
+		for _, h := range harnessNames {
+			fmt.Fprintf(&sb, "\t%q: %s,\n", h, h)
+		}
+		sb.WriteString("}\n")
+		reg := filepath.Join(tmp, "registry.go")
+		os.WriteFile(reg, []byte(sb.String()), 0o644)
+		overlay[filepath.Join(repo, "zz_verif_registry.go")] = reg
+		ob, _ := json.Marshal(map[string]interface{}{"Replace": overlay})
+		of := filepath.Join(tmp, "overlay.json")
+		os.WriteFile(of, ob, 0o644)
+		bin := filepath.Join(tmp, "replay.test")
+		cmd := exec.Command("go", "test", "-c", "-o", bin, "-tags", "verif,verifnative", "-vet=off", "-overlay", of, ".")
+		cmd.Dir = repo
+		cmd.Env = append(os.Environ(), "GOFLAGS=-mod=mod", "GOPROXY=off", "GOSUMDB=off", "GOTOOLCHAIN=local")
+		out, err := cmd.CombinedOutput()
+		if err != nil {
+			replayErr = fmt.Errorf("building native replay binary: %v\n%s", err, out)
+			return
+		}
+		replayBin = bin
+	})
+	return replayBin, replayErr
+}
+
+func runReplay(bin string, harness string, model map[string]string, thorough bool) *replayResult {
+	mf, _ := os.CreateTemp(replayTmp, "model*.json")
+	b, _ := json.Marshal(map[string]interface{}{"harness": harness, "model": model})
+	mf.Write(b)
+	mf.Close()
+	rf := mf.Name() + ".result"
+	cmd := exec.Command("timeout", "120", bin, "-test.run", "^TestVerifReplay$", "-test.count=1")
+	cmd.Dir = replayTmp
+	tier := "quick"
+	if thorough {
+		tier = "thorough"
+	}
+	cmd.Env = append(os.Environ(), "VERIF_REPLAY="+mf.Name(), "VERIF_RESULT="+rf, "VERIF_TIER="+tier)
+	out, err := cmd.CombinedOutput()
+	res := &replayResult{}
+	rb, rerr := os.ReadFile(rf)
+	if rerr != nil {
+		res.runErr = fmt.Sprintf("no result (%v): %s", err, tail(string(out), 600))
+		return res
+	}
+	json.Unmarshal(rb, res)
+	os.Remove(mf.Name())
+	os.Remove(rf)
+	return res
+}
+
+func tail(s string, n int) string {
+	if len(s) > n {
+		return s[len(s)-n:]
+	}
+	return s
+}
+
+var allHarnessNames []string
+var replayThorough bool
+
+func contains(l []string, s string) bool {
+	for _, x := range l {
+		if x == s {
+			return true
+		}
+	}
+	return false
+}
+
+// replayWitnesses: each reachability witness must reach its label natively
+// with no assumption violated and (unless a violation was found on that
+// label's path) no failed assertion.
+func replayWitnesses(repo, hdir string, r *HarnessRun, labels []string) (int, []string) {
+	bin, err := buildReplayBinary(repo, hdir, allHarnessNames)
+	if err != nil {
+		return 0, []string{err.Error()}
+	}
+	ok := 0
+	var bad []string
+	for _, l := range labels {
+		w := r.Witnesses[l]
+		if w.Model["_concretization_failed"] != "" {
+			continue // cannot be concretised; not counted as validated
+		}
+		res := runReplay(bin, r.Name, w.Model, replayThorough)
+		switch {
+		case res.runErr != "":
+			bad = append(bad, fmt.Sprintf("%s: %s", l, res.runErr))
+		case res.Panic != "":
+			bad = append(bad, fmt.Sprintf("%s: native panic %s", l, res.Panic))
+		case len(res.AssumeViolated) > 0:
+			bad = append(bad, fmt.Sprintf("%s: pre-state from the model violates an assumption natively", l))
+		case !contains(res.Reached, l):
+			bad = append(bad, fmt.Sprintf("%s: label not reached natively (reached %v, failed %v)", l, res.Reached, res.Failed))
+		default:
+			ok++
+			// a native assertion failure on a path the solver proved clean is a mismatch
+			for _, f := range res.Failed {
+				if _, isViol := r.Violations[f]; !isViol {
+					bad = append(bad, fmt.Sprintf("%s: assertion %q fails natively but not symbolically", l, f))
+				}
+			}
+		}
+	}
+	return ok, bad
+}
+
+func replayViolation(repo, hdir string, v *Violation, path string) string {
+	bin, err := buildReplayBinary(repo, hdir, allHarnessNames)
+	if err != nil {
+		return err.Error()
+	}
+	if v.Model["_concretization_failed"] != "" {
+		return "model could not be concretised"
+	}
+	if len(v.Sched) > 0 || v.Kind == "deadlock" {
+		return "unreplayed" // schedules are not replayed natively (stated)
+	}
+	res := runReplay(bin, v.Harness, v.Model, replayThorough)
+	if res.runErr != "" {
+		return res.runErr
+	}
+	if len(res.AssumeViolated) > 0 {
+		return "pre-state from the model violates an assumption natively"
+	}
+	switch v.Kind {
+	case "assert":
+		if contains(res.Failed, v.Label) {
+			return "reproduced"
+		}
+		return fmt.Sprintf("assertion held natively (failed=%v reached=%v panic=%q)", res.Failed, res.Reached, res.Panic)
+	case "panic":
+		if res.Panic != "" {
+			return "reproduced"
+		}
+		return "no panic natively"
+	}
+	return "unreplayed"
+}
+
+func replayOnly(repo, hdir, file string) int {
+	b, err := os.ReadFile(file)
+	if err != nil {
+		fmt.Fprintln(os.Stderr, err)
+		return 2
+	}
+	var v Violation
+	if err := json.Unmarshal(b, &v); err != nil {
+		fmt.Fprintln(os.Stderr, err)
+		return 2
+	}
+	L, err := loadRepo(repo, hdir)
+	if err != nil {
+		fmt.Fprintln(os.Stderr, "cannot build:", err)
+		return 2
+	}
+	for _, h := range L.harnesses() {
+		allHarnessNames = append(allHarnessNames, h.Name())
+	}
+	defer cleanupReplay()
+	res := replayViolation(repo, hdir, &v, file)
+	fmt.Printf("replay of %s [%s]: %s\n", v.Harness, v.Label, res)
+	if res == "reproduced" {
+		fmt.Printf("VIOLATION property=%s replay=%s\n", propOfHarness(v.Harness), file)
+		return 1
+	}
+	return 0
+}
